@@ -146,10 +146,11 @@ ZERO = ZPoly()
 ONE = ZPoly.const(1)
 
 
-def big(words):
+def big(words, wsz=None):
+    wsz = wsz or W
     out = ZPoly()
     for i, w in enumerate(words):
-        out = out + w * (W ** i)
+        out = out + w * (wsz ** i)
     return out
 
 
@@ -168,10 +169,13 @@ class World:
         self.atoms[name] = dict(kind=kind, lo=lo, hi=hi, **kw)
         return name
 
-    def input(self, name):
+    def input(self, name, hi=None):
         if name not in self.atoms:
-            self.atoms[name] = dict(kind='input', lo=0, hi=W - 1)
+            self.atoms[name] = dict(kind='input', lo=0, hi=(W - 1) if hi is None else hi)
         return ZPoly.var(name)
+
+    def weight(self, a):
+        return self.atoms[a].get('weight') or W
 
     # ---- intervals from atom ranges ----
     def rng(self, p):
@@ -238,7 +242,7 @@ class World:
                     elif at['kind'] == 'lo':
                         cl = E.t.get(((a, 1),), 0)
                         ch = E.t.get(((at['partner'], 1),), 0)
-                        if cl > 0 and ch >= W * cl:
+                        if cl > 0 and ch >= self.weight(a) * cl:
                             sub[a] = d
                 if sub:
                     E = E.subs(sub)
@@ -248,11 +252,12 @@ class World:
             if not bits:
                 break
             _, a, c = max(bits)
-            if c % W:
-                E = E * W
-                s *= W
-                c *= W
-            E = E + self.atoms[self.atoms[a]['comp']]['defn'] * (c // W)
+            wa = self.weight(a)
+            if c % wa:
+                E = E * wa
+                s *= wa
+                c *= wa
+            E = E + self.atoms[self.atoms[a]['comp']]['defn'] * (c // wa)
         return self.rng(E)[1] // s
 
     def prove_carry_zero(self, k):
@@ -260,8 +265,8 @@ class World:
         at = self.atoms[k]
         if at['kind'] != 'carry' or at.get('comp') is None:
             return False
-        total = self.atoms[at['comp']]['defn'] + ZPoly.var(k) * W
-        return self.bound_ub(total) < W
+        total = self.atoms[at['comp']]['defn'] + ZPoly.var(k) * self.weight(k)
+        return self.bound_ub(total) < self.weight(k)
 
 
 # ---------------------------------------------------------------------------------------------- machine state
@@ -300,6 +305,8 @@ GPR = ['rax', 'rbx', 'rcx', 'rdx', 'rsi', 'rdi', 'rbp', 'rsp'] + ['r%d' % i for 
 class X86Machine:
     RET = 'rax'
     ARCH = 'x86_64'
+    W = 1 << 64
+    WB = 8
     """evaluates one routine on every control-flow path; `args` describes the arguments: 'ptr' or 'int' per position;
     `alias` maps argument index -> argument index whose object it shares"""
 
@@ -317,9 +324,9 @@ class X86Machine:
         return self.alias.get(k, k)
 
     def word_atom(self, k, off):
-        if off % 8:
+        if off % self.WB:
             raise Unsupported('unaligned word access to argument %d at offset %d' % (k, off))
-        return self.world.input('A%d_%d' % (self.region(k), off // 8))
+        return self.world.input('A%d_%d' % (self.region(k), off // self.WB), self.W - 1)
 
     def load(self, st, op, ins):
         mm = x86_mem(op)
@@ -349,7 +356,7 @@ class X86Machine:
         """integer value of an operand"""
         if op.startswith('$'):
             v = int(op[1:], 0)
-            return ZPoly.const(v % W)
+            return ZPoly.const(v % self.W)
         if x86_mem(op) is not None:
             return self.load(st, op, ins)
         r = x86_reg(op)
@@ -369,19 +376,19 @@ class X86Machine:
         if total.is_const() or total.single_atom() is not None:
             return total
         lo, hi = self.world.rng(total)
-        a = self.world.new('v', kind, max(lo, 0), min(hi, W - 1), defn=total, **kw)
+        a = self.world.new('v', kind, max(lo, 0), min(hi, self.W - 1), defn=total, **kw)
         return ZPoly.var(a)
 
     def add_(self, st, x, y, cin, ins):
         total = x + y + cin
         lo, hi = self.world.rng(total)
-        if hi < W:
+        if hi < self.W:
             v = self.value(total)
             k = ZERO
         else:
-            kn = self.world.new('k', 'carry', 0, 1)
+            kn = self.world.new('k', 'carry', 0, 1, weight=self.W)
             k = ZPoly.var(kn)
-            vn = self.world.new('v', 'val', 0, W - 1, defn=total - k * W)
+            vn = self.world.new('v', 'val', 0, self.W - 1, defn=total - k * self.W)
             self.world.atoms[kn]['comp'] = vn
             v = ZPoly.var(vn)
         self.world.events.append(dict(op='add', x=x, y=y, cin=cin, k=k, v=v, addr=ins.addr, text=ins.text, cont=ins.mnem in ('adcq', 'adcxq', 'adoxq', 'adcs', 'adc'), flag='of' if ins.mnem == 'adoxq' else 'cf'))
@@ -394,7 +401,7 @@ class X86Machine:
         if bin_.is_zero() and y == ONE and self.world.rng(x) in ((0, 1), (0, 0), (1, 1)):
             # x - 1 for a bit x: borrow is exactly 1 - x (the idiom that reloads a saved carry into the flag)
             k = ONE - x
-            v = k * (W - 1)
+            v = k * (self.W - 1)
             self.world.events.append(dict(op='sub', x=x, y=y, cin=bin_, k=k, v=v, addr=ins.addr, text=ins.text, cont=False, flag='cf'))
             st.events.append(len(self.world.events) - 1)
             return v, k
@@ -402,9 +409,9 @@ class X86Machine:
             v = self.value(total)
             k = ZERO
         else:
-            kn = self.world.new('b', 'borrow', 0, 1)
+            kn = self.world.new('b', 'borrow', 0, 1, weight=self.W)
             k = ZPoly.var(kn)
-            vn = self.world.new('v', 'val', 0, W - 1, defn=total + k * W)
+            vn = self.world.new('v', 'val', 0, self.W - 1, defn=total + k * self.W)
             self.world.atoms[kn]['comp'] = vn
             v = ZPoly.var(vn)
         self.world.events.append(dict(op='sub', x=x, y=y, cin=bin_, k=k, v=v, addr=ins.addr, text=ins.text, cont=ins.mnem in ('sbbq', 'sbcs', 'sbc'), flag='cf'))
@@ -422,10 +429,10 @@ class X86Machine:
     def mul_new(self, x, y):
         prod = x * y
         lo, hi = self.world.rng(prod)
-        if hi < W:
+        if hi < self.W:
             return self.value(prod), ZERO
-        hn = self.world.new('h', 'hi', 0, hi // W)
-        ln = self.world.new('l', 'lo', 0, W - 1, defn=prod - ZPoly.var(hn) * W, partner=hn, rel=(x, y))
+        hn = self.world.new('h', 'hi', 0, hi // self.W, weight=self.W)
+        ln = self.world.new('l', 'lo', 0, self.W - 1, defn=prod - ZPoly.var(hn) * self.W, partner=hn, rel=(x, y), weight=self.W)
         self.world.atoms[hn]['partner'] = ln
         return ZPoly.var(ln), ZPoly.var(hn)
 
@@ -444,7 +451,7 @@ class X86Machine:
             if kind == 'ptr':
                 st.regs[X86_ARGS[i]] = ('p', i, 0)
             else:
-                st.regs[X86_ARGS[i]] = self.world.input('I%d' % i)
+                st.regs[X86_ARGS[i]] = self.world.input('I%d' % i, self.W - 1)
         st.regs['rsp'] = ('sp', 0)
         self.go(st, self.entry)
         return self.finals
@@ -612,7 +619,7 @@ class X86Machine:
             x, y = self.rd(st, ops[1], ins), self.rd(st, ops[0], ins)
             if mn == 'sbbq' and x86_reg(ops[0]) is not None and x86_reg(ops[0]) == x86_reg(ops[1]):
                 c = self.need_flag(st.cf, 'CF', ins)
-                st.regs[x86_reg(ops[1])] = c * (W - 1)      # 0 or 2^64-1
+                st.regs[x86_reg(ops[1])] = c * (self.W - 1)      # 0 or 2^64-1
                 st.of, st.zf = None, None
                 return
             bin_ = self.need_flag(st.cf, 'CF', ins) if mn == 'sbbq' else ZERO
@@ -624,7 +631,7 @@ class X86Machine:
         if mn == 'negq':
             x = self.rd(st, ops[0], ins)
             # only the flag-materialisation idiom  sbb r,r ; neg r  is modelled: x = (2^64-1) * bit
-            if len(x.t) == 1 and list(x.t.values())[0] == W - 1:
+            if len(x.t) == 1 and list(x.t.values())[0] == self.W - 1:
                 b = ZPoly({list(x.t.keys())[0]: 1})
                 a = b.single_atom()
                 if a is not None and w.atoms[a]['kind'] in ('carry', 'borrow'):
@@ -659,7 +666,7 @@ class X86Machine:
             return
         if mn == 'imulq' and len(ops) == 2:
             x, y = self.rd(st, ops[1], ins), self.rd(st, ops[0], ins)
-            un = w.new('u', 'trunc', 0, W - 1, rel=(x, y))
+            un = w.new('u', 'trunc', 0, self.W - 1, rel=(x, y))
             st.regs[x86_reg(ops[1])] = ZPoly.var(un)
             st.cf = st.of = st.zf = None
             return
@@ -692,7 +699,7 @@ class A64Machine(X86Machine):
         for i in range(31):
             st.regs['x%d' % i] = ('cs', 'x%d' % i)
         for i, kind in enumerate(self.args):
-            st.regs[A64_ARGS[i]] = ('p', i, 0) if kind == 'ptr' else self.world.input('I%d' % i)
+            st.regs[A64_ARGS[i]] = ('p', i, 0) if kind == 'ptr' else self.world.input('I%d' % i, self.W - 1)
         st.regs['sp'] = ('sp', 0)
         self.go(st, self.entry)
         return self.finals
@@ -707,7 +714,7 @@ class A64Machine(X86Machine):
 
     def imm_or_reg(self, st, op, ins):
         if op.startswith('#'):
-            return ZPoly.const(int(op[1:], 0) % W)
+            return ZPoly.const(int(op[1:], 0) % self.W)
         return self.reg(st, op, ins)
 
     def setreg(self, st, r, v):
@@ -871,10 +878,11 @@ class A64Machine(X86Machine):
 class PathResult:
     def __init__(self, m, st, nres):
         self.m, self.st, self.w = m, st, m.world
+        self.W = m.W
         self.sub = {a: ZPoly.const(v) for a, v in st.bits.items()}
         self.res = []
         for i in range(nres):
-            v = st.mem.get((m.region(0), 8 * i))
+            v = st.mem.get((m.region(0), m.WB * i))
             self.res.append(v)
         self.ret = st.regs.get(m.RET)
 
@@ -940,7 +948,7 @@ class PathResult:
             n = len(ch)
             tot = ZPoly()
             for i, e in enumerate(ch):
-                tot = tot + (e['x'] + e['y']) * (W ** i)
+                tot = tot + (e['x'] + e['y']) * (self.W ** i)
             if self.x(tot) == X and self.bit_fact(ch[-1]['k']) == 1 and n == len(pwords):
                 return 'ge', 'carry out of the %d-word addition chain ending at %#x is set (value >= 2^%d > modulus)' % (n, ch[-1]['addr'], 64 * n)
         # (2) a full subtraction chain computing exactly X - P whose final borrow is decided
@@ -950,7 +958,7 @@ class PathResult:
                 continue
             tot = ZPoly()
             for i, e in enumerate(ch):
-                tot = tot + (e['x'] - e['y']) * (W ** i)
+                tot = tot + (e['x'] - e['y']) * (self.W ** i)
             b = self.bit_fact(ch[-1]['k'])
             if b is not None and self.x(tot) == T:
                 return ('lt' if b else 'ge'), 'borrow out of the %d-word subtraction chain ending at %#x is %d' % (n, ch[-1]['addr'], b)
@@ -960,7 +968,7 @@ class PathResult:
         for xw in xwords_candidates:
             if xw is None or any(v is None for v in xw) or len(xw) != len(pwords):
                 continue
-            if not (self.x(big(xw)) - P == T):
+            if not (self.x(big(xw, self.W)) - P == T):
                 continue
             nx = [self.x(v) for v in xw]
             npw = [self.x(v) for v in pwords]
@@ -992,7 +1000,7 @@ class PathResult:
 
 
 def operand_words(m, k, n):
-    return [m.world.input('A%d_%d' % (m.region(k), i)) for i in range(n)]
+    return [m.world.input('A%d_%d' % (m.region(k), i), m.W - 1) for i in range(n)]
 
 
 # ---------------------------------------------------------------------------------------------- specifications
@@ -1009,7 +1017,7 @@ def _leftover_ok(pr, D, n, allow_mod=True):
         D = D.subs(zero)
     if D.is_zero():
         return True, '%d carry bit(s) proven zero by range' % len(zero)
-    if allow_mod and D.coeff_gcd_divisible(W ** n):
+    if allow_mod and D.coeff_gcd_divisible(pr.W ** n):
         return True, 'equal modulo 2^%d' % (64 * n)
     return False, repr(D)
 
@@ -1018,11 +1026,11 @@ def check_exact(pr, n, spec, ret_weight=None, what=''):
     """result words (+ returned carry/borrow * 2^(64 n) * ret_weight) == spec, as an identity"""
     if any(v is None for v in pr.res):
         return False, 'result word %d is never stored' % [i for i, v in enumerate(pr.res) if v is None][0]
-    R = pr.x(big(pr.res))
+    R = pr.x(big(pr.res, pr.W))
     if ret_weight is not None:
         if not isinstance(pr.ret, ZPoly):
             return False, 'the returned carry/borrow is not a tracked value'
-        R = R + pr.x(pr.ret) * (ret_weight * W ** n)
+        R = R + pr.x(pr.ret) * (ret_weight * pr.W ** n)
     ok, why = _leftover_ok(pr, R - pr.x(spec), n, allow_mod=False)
     return ok, ('' if ok else 'stored words%s differ from %s by %s' % (' and returned flag' if ret_weight else '', what, why))
 
@@ -1031,7 +1039,7 @@ def check_mod_reduce(pr, n, X, P, pwords, sign):
     """sign=+1: result == X - [X >= P] * P ;  sign=-1 (subtraction): result == X + [X < 0] * P"""
     if any(v is None for v in pr.res):
         return False, 'result word %d is never stored on the path %s' % ([i for i, v in enumerate(pr.res) if v is None][0], pr.describe())
-    R = pr.x(big(pr.res))
+    R = pr.x(big(pr.res, pr.W))
     Xn, Pn = pr.x(X), pr.x(P)
     plain, _ = _leftover_ok(pr, R - Xn, n)
     corr, _ = _leftover_ok(pr, R - (Xn - Pn * sign), n)
@@ -1060,7 +1068,7 @@ def check_mod_reduce(pr, n, X, P, pwords, sign):
     for ch in pr.chains('sub'):
         tot = ZPoly()
         for i, e in enumerate(ch):
-            tot = tot + (e['x'] - e['y']) * (W ** i)
+            tot = tot + (e['x'] - e['y']) * (pr.W ** i)
         b = pr.bit_fact(ch[-1]['k'])
         if len(ch) == n and pr.x(tot) == Xn and b is not None:
             if bool(b) != corr:
@@ -1074,10 +1082,10 @@ def check_montgomery(pr, n, m, T=None, parg=2, invarg=3):
     """result == V - [V >= P] * P with 2^(64n) * V == T + U*P, U the quotient words u_i = lo(inv * t_i), low n words cancelled"""
     w = pr.w
     if T is None:
-        T = big([m.world.input('A%d_%d' % (m.region(1), i)) for i in range(2 * n)])
+        T = big([m.world.input('A%d_%d' % (m.region(1), i), m.W - 1) for i in range(2 * n)], m.W)
     pw = operand_words(m, parg, n)
-    P = big(pw)
-    inv = m.world.input('I%d' % invarg)
+    P = big(pw, m.W)
+    inv = m.world.input('I%d' % invarg, m.W - 1)
     if any(v is None for v in pr.res):
         return False, 'result word never stored'
     # quotient words: low halves / truncated products whose factors are (inv, running word), in creation order
@@ -1107,9 +1115,9 @@ def check_montgomery(pr, n, m, T=None, parg=2, invarg=3):
         if found is None:
             return False, 'row of quotient word %s: the addition  t_i + lo(u_i * p[0])  that cancels the low word was not found' % un
         zs.append(found['v'])
-    U = big([ZPoly.var(un) for (un, t) in us])
-    R = pr.x(big(pr.res))
-    Z = pr.x(big(zs))
+    U = big([ZPoly.var(un) for (un, t) in us], m.W)
+    R = pr.x(big(pr.res, m.W))
+    Z = pr.x(big(zs, m.W))
     Pn = pr.x(P)
     spec = pr.x(T) + pr.x(U) * Pn
     # V = the six words that hold the value before the final correction: the stored words themselves (copy paths), or the minuends
@@ -1120,8 +1128,8 @@ def check_montgomery(pr, n, m, T=None, parg=2, invarg=3):
             cands.append(([e['x'] for e in ch], True))
     last = 'no candidate for the pre-correction value'
     for (xw, corr) in cands:
-        V = pr.x(big(xw))
-        okv, why1 = _leftover_ok(pr, V * (W ** n) + Z - spec, 2 * n)
+        V = pr.x(big(xw, m.W))
+        okv, why1 = _leftover_ok(pr, V * (m.W ** n) + Z - spec, 2 * n)
         if not okv:
             last = '2^%d * V + (cancelled low words) differs from T + U*p (modulo 2^%d) by %s' % (64 * n, 128 * n, why1[:300])
             continue
@@ -1177,40 +1185,41 @@ def analyse_routine(insns, order, entry, name, arch='x86_64'):
         msgs = []
         notes = []
         for st in finals:
-            pr = PathResult(m, st, nres)
+            pr = PathResult(m, st, nres * 8 // m.WB)
             notes += st.notes
-            A = big(operand_words(m, 1, 6))
+            NW = 384 // (m.WB * 8)
+            A = big(operand_words(m, 1, NW), m.W)
             if which in ('add', 'sub', 'fpadd', 'fpsub', 'mul', 'mulredc'):
-                B = big(operand_words(m, 2, 6))
+                B = big(operand_words(m, 2, NW), m.W)
             if which == 'add':
-                ok, why = check_exact(pr, 6, A + B, ret_weight=1, what='a + b')
+                ok, why = check_exact(pr, NW, A + B, ret_weight=1, what='a + b')
             elif which == 'sub':
-                ok, why = check_exact(pr, 6, A - B, ret_weight=-1, what='a - b')
+                ok, why = check_exact(pr, NW, A - B, ret_weight=-1, what='a - b')
             elif which == 'dbl':
-                ok, why = check_exact(pr, 6, A + A, ret_weight=1, what='2a')
+                ok, why = check_exact(pr, NW, A + A, ret_weight=1, what='2a')
             elif which == 'mul':
-                ok, why = check_exact(pr, 12, A * B, what='a * b')
+                ok, why = check_exact(pr, 2 * NW, A * B, what='a * b')
                 if not ok:
-                    ok, why2 = _leftover_ok(pr, pr.x(big(pr.res)) - pr.x(A * B), 12) if all(v is not None for v in pr.res) else (False, why)
+                    ok, why2 = _leftover_ok(pr, pr.x(big(pr.res, m.W)) - pr.x(A * B), 2 * NW) if all(v is not None for v in pr.res) else (False, why)
             elif which == 'sqr':
-                ok, why = check_exact(pr, 12, A * A, what='a * a')
+                ok, why = check_exact(pr, 2 * NW, A * A, what='a * a')
                 if not ok and all(v is not None for v in pr.res):
-                    ok, why2 = _leftover_ok(pr, pr.x(big(pr.res)) - pr.x(A * A), 12)
+                    ok, why2 = _leftover_ok(pr, pr.x(big(pr.res, m.W)) - pr.x(A * A), 2 * NW)
             elif which == 'fpadd':
-                pw = operand_words(m, 3, 6)
-                ok, why = check_mod_reduce(pr, 6, A + B, big(pw), pw, +1)
+                pw = operand_words(m, 3, NW)
+                ok, why = check_mod_reduce(pr, NW, A + B, big(pw, m.W), pw, +1)
             elif which == 'fpdbl':
-                pw = operand_words(m, 2, 6)
-                ok, why = check_mod_reduce(pr, 6, A + A, big(pw), pw, +1)
+                pw = operand_words(m, 2, NW)
+                ok, why = check_mod_reduce(pr, NW, A + A, big(pw, m.W), pw, +1)
             elif which == 'fpsub':
-                pw = operand_words(m, 3, 6)
-                ok, why = check_mod_reduce(pr, 6, A - B, big(pw), pw, -1)
+                pw = operand_words(m, 3, NW)
+                ok, why = check_mod_reduce(pr, NW, A - B, big(pw, m.W), pw, -1)
             elif which == 'redc':
-                ok, why = check_montgomery(pr, 6, m)
+                ok, why = check_montgomery(pr, NW, m)
             elif which == 'mulredc':
-                ok, why = check_montgomery(pr, 6, m, T=A * B, parg=3, invarg=4)
+                ok, why = check_montgomery(pr, NW, m, T=A * B, parg=3, invarg=4)
             elif which == 'sqrredc':
-                ok, why = check_montgomery(pr, 6, m, T=A * A, parg=2, invarg=3)
+                ok, why = check_montgomery(pr, NW, m, T=A * A, parg=2, invarg=3)
             if not ok:
                 msgs.append(why)
         out.append((pat, not msgs, msgs, len(finals), notes, len(m.world.atoms)))
